@@ -154,6 +154,33 @@ func c27SubScenarios() map[string]c27SubScenario {
 		"WithRecoverSince": {Field: "RecoverSince", Base: []string{"WithRecovery"}, Opts: func(e *c27Env) []SubscribeOption {
 			return []SubscribeOption{WithRecovery(true), WithRecoverSince(&StreamPosition{Offset: 1, Epoch: e.epoch})}
 		}},
+		// boundary values of RecoverSince: zero / non-zero offset x empty / valid epoch
+		"WithRecoverSince#zero-offset": {Field: "RecoverSince", Base: []string{"WithRecovery"}, Opts: func(e *c27Env) []SubscribeOption {
+			return []SubscribeOption{WithRecovery(true), WithRecoverSince(&StreamPosition{Offset: 0, Epoch: e.epoch})}
+		}},
+		"WithRecoverSince#zero-offset-no-epoch": {Field: "RecoverSince", Base: []string{"WithRecovery"}, Opts: func(e *c27Env) []SubscribeOption {
+			return []SubscribeOption{WithRecovery(true), WithRecoverSince(&StreamPosition{})}
+		}},
+		"WithRecoverSince#no-epoch": {Field: "RecoverSince", Base: []string{"WithRecovery"}, Opts: func(e *c27Env) []SubscribeOption {
+			return []SubscribeOption{WithRecovery(true), WithRecoverSince(&StreamPosition{Offset: 1})}
+		}},
+		"WithRecoverSince#top": {Field: "RecoverSince", Base: []string{"WithRecovery"}, Opts: func(e *c27Env) []SubscribeOption {
+			return []SubscribeOption{WithRecovery(true), WithRecoverSince(&StreamPosition{Offset: 2, Epoch: e.epoch})}
+		}},
+		"WithRecoverSince#foreign-epoch": {Field: "RecoverSince", Base: []string{"WithRecovery"}, Opts: func(e *c27Env) []SubscribeOption {
+			return []SubscribeOption{WithRecovery(true), WithRecoverSince(&StreamPosition{Offset: 0, Epoch: "gone"})}
+		}},
+		// zero values of the other options, next to a non-zero one so that the call does something
+		"WithExpireAt#zero":        {Field: "ExpireAt", Base: []string{"WithChannelInfo"}, Opts: func(e *c27Env) []SubscribeOption { return []SubscribeOption{WithChannelInfo([]byte(`{"k":1}`)), WithExpireAt(0)} }},
+		"WithChannelInfo#empty":    {Field: "ChannelInfo", Base: []string{"WithExpireAt"}, Opts: func(e *c27Env) []SubscribeOption { return []SubscribeOption{WithExpireAt(e.expire), WithChannelInfo([]byte{})} }},
+		"WithSubscribeData#empty":  {Field: "Data", Base: []string{"WithExpireAt"}, Opts: func(e *c27Env) []SubscribeOption { return []SubscribeOption{WithExpireAt(e.expire), WithSubscribeData([]byte{})} }},
+		"WithSubscribeSource#zero": {Field: "Source", Base: []string{"WithExpireAt"}, Opts: func(e *c27Env) []SubscribeOption { return []SubscribeOption{WithExpireAt(e.expire), WithSubscribeSource(0)} }},
+		"WithPositioning#false":    {Field: "EnablePositioning", Base: []string{"WithRecovery"}, Opts: func(e *c27Env) []SubscribeOption { return []SubscribeOption{WithRecovery(true), WithPositioning(false)} }},
+		"WithRecovery#false":       {Field: "EnableRecovery", Base: []string{"WithPositioning"}, Opts: func(e *c27Env) []SubscribeOption { return []SubscribeOption{WithPositioning(true), WithRecovery(false)} }},
+		"WithEmitPresence#false":   {Field: "EmitPresence", Base: []string{"WithEmitJoinLeave"}, Opts: func(e *c27Env) []SubscribeOption { return []SubscribeOption{WithEmitJoinLeave(true), WithEmitPresence(false)} }},
+		"WithSubscribeClient#empty": {Field: "clientID", Opts: func(e *c27Env) []SubscribeOption { return []SubscribeOption{WithSubscribeClient("")} }},
+		"WithSubscribeSession#empty": {Field: "sessionID", Opts: func(e *c27Env) []SubscribeOption { return []SubscribeOption{WithSubscribeSession("")} }},
+		"WithSubscribeAllUsers#false": {Field: "allUsers", Opts: func(e *c27Env) []SubscribeOption { return []SubscribeOption{WithSubscribeAllUsers(false)} }},
 		"WithAutoCacheRecover": {Field: "AutoCacheRecover", Base: []string{"WithRecovery", "WithRecoveryMode"}, Opts: func(e *c27Env) []SubscribeOption {
 			return []SubscribeOption{WithRecovery(true), WithRecoveryMode(RecoveryModeCache), WithAutoCacheRecover(true)}
 		}},
@@ -179,6 +206,9 @@ func c27UnsubScenarios() map[string]c27GenScenario {
 		"WithCustomUnsubscribe": {Field: "unsubscribe", Opts: func(e *c27Env) any {
 			return WithCustomUnsubscribe(Unsubscribe{Code: 2555, Reason: "custom reason"})
 		}},
+		"WithCustomUnsubscribe#empty-reason": {Field: "unsubscribe", Opts: func(e *c27Env) any { return WithCustomUnsubscribe(Unsubscribe{Code: 2556}) }},
+		"WithCustomUnsubscribe#zero-code":    {Field: "unsubscribe", Opts: func(e *c27Env) any { return WithCustomUnsubscribe(Unsubscribe{Reason: "no code"}) }},
+		"WithUnsubscribeClient#empty":        {Field: "clientID", Opts: func(e *c27Env) any { return WithUnsubscribeClient("") }},
 		"WithUnsubscribeLabelFilter": {Field: "labelFilter", Opts: func(e *c27Env) any { return WithUnsubscribeLabelFilter(c27Gold()) }},
 		"WithUnsubscribeAllUsers":    {Field: "allUsers", User: "", Opts: func(e *c27Env) any { return WithUnsubscribeAllUsers(true) }},
 	}
@@ -194,6 +224,9 @@ func c27DiscScenarios() map[string]c27GenScenario {
 		"WithDisconnectClientWhitelist": {Field: "ClientWhitelist", Opts: func(e *c27Env) any {
 			return WithDisconnectClientWhitelist([]string{e.conns[1].client.ID()})
 		}},
+		"WithCustomDisconnect#empty-reason": {Field: "Disconnect", Opts: func(e *c27Env) any { return WithCustomDisconnect(Disconnect{Code: 4445}) }},
+		"WithCustomDisconnect#zero-code":    {Field: "Disconnect", Opts: func(e *c27Env) any { return WithCustomDisconnect(Disconnect{Reason: "no code"}) }},
+		"WithDisconnectClientWhitelist#empty": {Field: "ClientWhitelist", Opts: func(e *c27Env) any { return WithDisconnectClientWhitelist([]string{}) }},
 		"WithDisconnectLabelFilter": {Field: "labelFilter", Opts: func(e *c27Env) any { return WithDisconnectLabelFilter(c27Gold()) }},
 		"WithDisconnectAllUsers":    {Field: "allUsers", User: "", Opts: func(e *c27Env) any { return WithDisconnectAllUsers(true) }},
 	}
@@ -206,6 +239,10 @@ func c27RefreshScenarios() map[string]c27GenScenario {
 		"WithRefreshExpired":     {Field: "Expired", Opts: func(e *c27Env) any { return WithRefreshExpired(true) }},
 		"WithRefreshExpireAt":    {Field: "ExpireAt", Opts: func(e *c27Env) any { return WithRefreshExpireAt(e.expire) }},
 		"WithRefreshInfo":        {Field: "Info", Opts: func(e *c27Env) any { return WithRefreshInfo([]byte(`{"i":3}`)) }},
+		"WithRefreshExpireAt#zero": {Field: "ExpireAt", Opts: func(e *c27Env) any { return WithRefreshExpireAt(0) }},
+		"WithRefreshExpireAt#past": {Field: "ExpireAt", Opts: func(e *c27Env) any { return WithRefreshExpireAt(1) }},
+		"WithRefreshInfo#empty":    {Field: "Info", Opts: func(e *c27Env) any { return WithRefreshInfo([]byte{}) }},
+		"WithRefreshExpired#false": {Field: "Expired", Opts: func(e *c27Env) any { return WithRefreshExpired(false) }},
 		"WithRefreshLabelFilter": {Field: "labelFilter", Opts: func(e *c27Env) any { return WithRefreshLabelFilter(c27Gold()) }},
 		"WithRefreshAllUsers":    {Field: "allUsers", User: "", Opts: func(e *c27Env) any { return WithRefreshAllUsers(true) }},
 	}
@@ -464,10 +501,10 @@ func c27Singleton(kind int, name string) (c27Case, bool) {
 			return c27Case{}, false
 		}
 		user := "u1"
-		if name == "WithSubscribeAllUsers" {
+		if c27Base(name) == "WithSubscribeAllUsers" {
 			user = ""
 		}
-		all := append(append([]string{}, sc.Base...), name)
+		all := c27Dedupe(append(append([]string{}, sc.Base...), name))
 		return c27Case{Kind: 0, Setters: []string{name}, All: all, Fields: map[string]string{name: sc.Field},
 			Call: c27Call{Kind: 0, User: user, Sub: sc.Opts}}, true
 	default:
@@ -485,10 +522,10 @@ func c27Singleton(kind int, name string) (c27Case, bool) {
 			return c27Case{}, false
 		}
 		user := "u1"
-		if strings.HasSuffix(name, "AllUsers") {
+		if strings.HasSuffix(c27Base(name), "AllUsers") {
 			user = ""
 		}
-		cs := c27Case{Kind: kind, Setters: []string{name}, All: []string{name}, Fields: map[string]string{name: sc.Field}}
+		cs := c27Case{Kind: kind, Setters: []string{name}, All: []string{c27Base(name)}, Fields: map[string]string{name: sc.Field}}
 		cs.Call = c27Combine(kind, user, []c27GenScenario{sc})
 		return cs, true
 	}
@@ -561,7 +598,7 @@ func c27Combo(r *rand.Rand, kind int) c27Case {
 	cs := c27Case{Kind: kind, Setters: pick, Fields: map[string]string{}}
 	user := "u1"
 	for _, n := range pick {
-		if strings.HasSuffix(n, "AllUsers") {
+		if strings.HasSuffix(c27Base(n), "AllUsers") {
 			user = ""
 		}
 	}
@@ -578,7 +615,7 @@ func c27Combo(r *rand.Rand, kind int) c27Case {
 		for n := range set {
 			cs.All = append(cs.All, n)
 		}
-		sort.Strings(cs.All)
+		cs.All = c27Dedupe(cs.All)
 		cs.Call = c27Call{Kind: 0, User: user, Sub: func(e *c27Env) []SubscribeOption {
 			var out []SubscribeOption
 			for _, n := range pick {
@@ -602,12 +639,33 @@ func c27Combo(r *rand.Rand, kind int) c27Case {
 		cs.Fields[n] = m[n].Field
 		scs = append(scs, m[n])
 	}
-	cs.All = pick
+	cs.All = c27Dedupe(pick)
 	cs.Call = c27Combine(kind, user, scs)
 	return cs
 }
 
-func c27Str(s string) string { return `"` + s + `"%string` }
+func c27Str(s string) string { return `"` + c27Base(s) + `"%string` }
+
+// scenario names may carry a "#variant" suffix: the setter is the part before it
+func c27Base(s string) string {
+	if i := strings.Index(s, "#"); i >= 0 {
+		return s[:i]
+	}
+	return s
+}
+
+func c27Dedupe(names []string) []string {
+	seen := map[string]bool{}
+	var out []string
+	for _, n := range names {
+		if b := c27Base(n); !seen[b] {
+			seen[b] = true
+			out = append(out, b)
+		}
+	}
+	sort.Strings(out)
+	return out
+}
 
 func TestVerifC27(t *testing.T) {
 	w := verifOpen(t, "C27")
@@ -635,7 +693,7 @@ func TestVerifC27(t *testing.T) {
 			f := corpus[i]
 			switch f.name {
 			case "#inventory":
-				names := c27Names(f.kind)
+				names := c27Dedupe(c27Names(f.kind))
 				xs := make([]string, len(names))
 				for k, n := range names {
 					xs[k] = c27Str(n)
